@@ -184,7 +184,9 @@ impl<'a> Ctx<'a> {
             op if op.is_send_like() && !matches!(op, Op::FutSend { .. }) => {
                 let id = op.send_id().unwrap();
                 if let (Op::ASend { .. }, Res::Cancelled) = (op, &r.res) {
-                    if r.polls == 0 {
+                    // dropped before it had any effect: never polled, or polled without ever entering the wait list
+                    // (an implementation may answer Pending and wake itself, e.g. when the internal lock is busy)
+                    if r.polls == 0 || r.reg.is_none() {
                         out.push(adv(st));
                         return out;
                     }
@@ -232,7 +234,7 @@ impl<'a> Ctx<'a> {
             }
             Op::Recv { .. } | Op::RecvTimeout { .. } | Op::TryRecv { .. } | Op::TryRecvRt { .. } | Op::ARecv { .. } | Op::StreamNext { .. } => {
                 if let (Op::ARecv { .. }, Res::Cancelled) = (&r.op, &r.res) {
-                    if r.polls == 0 {
+                    if r.polls == 0 || r.reg.is_none() {
                         out.push(adv(st));
                         return out;
                     }
